@@ -199,7 +199,7 @@ pub struct PadMsg {
 fn wire_forward(maps: &RunMaps, board: usize, ch: u8) -> Option<usize> {
     (0..256).find(|&w| maps.wire_src[w] == Some((board, ch)))
 }
-fn pad_forward(maps: &RunMaps, board: usize, chip: u8, pc: u16) -> Option<(usize, usize)> {
+pub fn pad_forward(maps: &RunMaps, board: usize, chip: u8, pc: u16) -> Option<(usize, usize)> {
     maps.pad_src.iter().find(|(_, v)| **v == (board, chip, pc)).map(|(k, _)| *k)
 }
 
